@@ -122,17 +122,18 @@ func (df *DictionaryFilter) extractElements(serializedArray []byte, values [][]b
 	}
 
 	if df.valueType == pbv1.ValueTypeStrArr {
-		// For each query value, check if it exists in the array
-		// UnmarshalVarArray modifies the source in-place for decoding
-		// This approach has zero allocations and early-exits on match
+		// For each query value, check if it exists in the array.
+		// The stored dictionary value is shared by every evaluation of this filter, so it
+		// must not be decoded in place (encoding.UnmarshalVarArray rewrites the buffer when an
+		// element carries an escape). Elements are compared against the escaped form instead.
 		for _, v := range values {
 			found := false
 			for idx := 0; idx < len(serializedArray); {
-				end, next, err := encoding.UnmarshalVarArray(serializedArray, idx)
-				if err != nil {
+				match, next, ok := matchVarArrayElement(serializedArray, idx, v)
+				if !ok {
 					return false
 				}
-				if bytes.Equal(v, serializedArray[idx:end]) {
+				if match {
 					found = true
 					break
 				}
@@ -146,4 +147,30 @@ func (df *DictionaryFilter) extractElements(serializedArray []byte, values [][]b
 	}
 
 	return false
+}
+
+// matchVarArrayElement compares the escaped var-array element starting at src[idx] with the
+// unescaped value v without modifying src. It returns whether they are equal and the index of
+// the next element. ok is false if the element is malformed (dangling escape or no delimiter).
+func matchVarArrayElement(src []byte, idx int, v []byte) (match bool, next int, ok bool) {
+	match = true
+	j := 0
+	for i := idx; i < len(src); i++ {
+		b := src[i]
+		switch b {
+		case encoding.EntityDelimiter:
+			return match && j == len(v), i + 1, true
+		case encoding.Escape:
+			i++
+			if i >= len(src) {
+				return false, 0, false
+			}
+			b = src[i]
+		}
+		if match && (j >= len(v) || v[j] != b) {
+			match = false
+		}
+		j++
+	}
+	return false, 0, false
 }
